@@ -44,7 +44,10 @@ MANIFEST = {
             'directions: the next packet always meets the keys the receiver holds '
             '(receiver_epoch_matches_next_packet), neither endpoint ever fails (rekey_never_fails: simulation by '
             'a 23-state control abstraction whose closure the kernel checks), the handshake cannot stall '
-            '(rekey_completes_when_drained) and at most three kex messages are in flight per direction. '
+            '(rekey_completes_when_drained), at most three kex messages are in flight per direction, and what '
+            'each side\'s upper layers received is always an exact in-order prefix of what the other side '
+            'submitted, all of it once drained (pair_delivers_prefix_in_order, '
+            'pair_delivers_everything_when_drained). '
             'Tied to the code by a scripted live pair with per-connection virtual clocks whose wire type sequences '
             'the two-endpoint model must reproduce, and by busy sessions with byte-triggered rekeys.',
     'note': 'key material symbolic (epochs); the abstract exchange has two messages (INIT/REPLY) like ECDH; '
